@@ -226,6 +226,11 @@ def run(chk, repo):
     chk.rule('C02.i', '(shared with C01.f) split_node: the truncated / pop-collapse flags describe the END of a node and move to the right half', 2)
     chk.clauses.append('C02.i when a node is split the right half inherits `truncated`: the open-ended tail of an mRNA_end_NF transcript is never reported as a peptide')
     split_node_flags(chk, repo, 'C02.i')
+    from rules.shared import truthy_numeric
+    chk.clauses.append('C02.k (shared R-TRUTHY) no numeric parameter (reading frame, index, offset: 0 is a value) is tested by truthiness instead of `is None`')
+    truthy_numeric(chk, repo, 'C02.k', ['svgraph', 'aa.AminoAcidSeqRecord', 'dna'])
+    series_lockstep(chk, repo, 'C02.l')
+
 
 def retry_effects(chk, repo, rid):
     """R-EFFECT on the timeout retry (shared with C06.f)."""
@@ -354,3 +359,45 @@ def retry_effects(chk, repo, rid):
     raises = [n for n in ast.walk(hb) if isinstance(n, ast.Raise)]
     chk.ob(rid, 'next limits = next configured value, else current - 1 (raise at 0)', repo.loc(r, hb), ok and len(raises) >= 1,
            f"retry limit schedule altered: max_variants_per_node <- {s1[:160]}; additional_variants_per_misc <- {s2[:160]}", key=r.qual + '::schedule', fn=r.qual)
+
+def series_lockstep(chk, repo, rid):
+    """R-LOCKSTEP: a miscleaved peptide is the concatenation of the sequences of the nodes of a series; everything positioned
+    relative to a node's sequence (its Sec positions, its variants) must be read from THE SAME object whose sequence is joined -
+    the series element, which for the first node is a copy trimmed to the ORF start - not from the graph node it was copied from."""
+    from sa import sem
+    chk.rule(rid, 'R-LOCKSTEP: per-node coordinates (selenocysteines, variants) are read from the series element whose sequence is joined', 2)
+    chk.clauses.append('C02.l in join_miscleaved_peptides the Sec positions and variants of a series are taken from the very node objects whose sequences are concatenated (the trimmed copy of the first node, not the untrimmed graph node)')
+    f = repo.func('svgraph.VariantPeptideDict:MiscleavedNodes.join_miscleaved_peptides')
+    chk.uses(f)
+    ch = sem.block_chains(f.node)
+    loops_ = [l for l in ast.walk(f.node) if isinstance(l, ast.For) and isinstance(l.iter, ast.Call) and call_name(l.iter) == 'enumerate'
+              and isinstance(l.target, ast.Tuple) and len(l.target.elts) == 2 and isinstance(l.target.elts[1], ast.Name)
+              and any(isinstance(x, ast.Attribute) and x.attr == 'selenocysteines' for x in ast.walk(l))]
+    if len(loops_) != 1:
+        chk.undecided(rid, 'series loop', f.where, f"{len(loops_)} enumerate loops reading .selenocysteines", key=f.qual + '::loop', fn=f.qual)
+        return
+    lp = loops_[0]
+    N = lp.target.elts[1].id
+    # the sequence piece that is joined comes from N
+    pieces = [st for st in ast.walk(lp) if isinstance(st, ast.Assign) and len(st.targets) == 1 and isinstance(st.targets[0], ast.Name)
+              and re.fullmatch(r'str\(' + re.escape(N) + r'\.seq\.seq\)', unparse(st.value))]
+    chk.ob(rid, 'the joined sequence piece is the sequence of the series element', repo.loc(f, lp), len(pieces) == 1,
+           'the piece appended to the peptide is not `str(<series element>.seq.seq)`', key=f.qual + '::piece', fn=f.qual)
+    bad = []
+    n = 0
+    for st in ast.walk(lp):
+        if not (isinstance(st, ast.stmt) and (sem.own_stmt(st) or isinstance(st, (ast.For, ast.If)))):
+            continue
+        roots = [st.iter] if isinstance(st, ast.For) else ([st.test] if isinstance(st, ast.If) else [st])
+        for root in roots:
+            for a in ast.walk(root):
+                if isinstance(a, ast.Attribute) and a.attr in ('selenocysteines', 'variants') and isinstance(a.ctx, ast.Load):
+                    recv = unparse(sem.expand_names(f.node, st, a.value, chains=ch))
+                    if recv in ('self',):
+                        continue
+                    n += 1
+                    if recv != N:
+                        bad.append(f"`{unparse(a)}` reads from `{recv}`")
+    chk.ob(rid, f"{n} reads of per-node coordinates use the series element", repo.loc(f, lp), n >= 2 and not bad,
+           '; '.join(bad[:3]) + ': positions relative to a node sequence are taken from a different object than the one whose sequence is joined (for the first node the series '
+           'holds a copy trimmed to the ORF start: its coordinates are shifted against the graph node)', key=f.qual + '::same-object', fn=f.qual)
